@@ -223,8 +223,8 @@ fn record_facts(st: &mut Stats, f: &Facts, h: &History) {
 }
 
 /// Run one history for check `hc`; Err = violation of hc's property.
-pub fn eval(hc: &HistCheck, h: &History, st: &mut Stats) -> Result<(), String> {
-    let (it, results) = run_history(h, false, false);
+pub fn eval(hc: &HistCheck, h: &History, st: &mut Stats, excuse: (bool, bool)) -> Result<(), String> {
+    let (it, results) = run_history_with(h, false, false, excuse);
     record_facts(st, &it.facts, h);
     if (hc.nontrivial)(&it.facts) {
         if st.nontrivial(hash_of(h)) && st.want_sample() {
@@ -238,7 +238,7 @@ pub fn eval(hc: &HistCheck, h: &History, st: &mut Stats) -> Result<(), String> {
         st.count(&format!("other_oracle_hits_ignored_here/{:?}", v.oracle));
     }
     if hc.twin_without_reads && h.ops.iter().any(|o| matches!(o, Op::Read(_))) {
-        let (it2, results2) = run_history(h, true, false);
+        let (it2, results2) = run_history_with(h, true, false, excuse);
         let a: Vec<&OpResult> = results.iter().filter(|r| !matches!(r, OpResult::Read)).collect();
         let b: Vec<&OpResult> = results2.iter().filter(|r| !matches!(r, OpResult::Read)).collect();
         st.count("twin_runs");
@@ -255,25 +255,110 @@ pub fn eval(hc: &HistCheck, h: &History, st: &mut Stats) -> Result<(), String> {
     Ok(())
 }
 
+fn excuses(cfg: &RunCfg) -> (crate::known::KnownFile, (bool, bool)) {
+    let known = crate::known::load(&cfg.root);
+    let e = (known.listed("C04", "KF-C04-1"), known.listed("C04", "KF-C04-2"));
+    (known, e)
+}
+
 pub fn run(cfg: &RunCfg, hc: &'static HistCheck) -> Report {
     let mut rep = Report::new(hc.id, "exploration", hc.rule);
     rep.assumptions = hc.assumptions.iter().map(|s| s.to_string()).collect();
+    let (known, excuse) = excuses(cfg);
     let hcfg = (hc.cfg)(cfg.tier);
     let n = cfg.cases(hc.quick, hc.thorough);
     rep.absorb(
         "history",
-        explore(cfg, hc.id, n, move || history(hcfg), |h: &History, st| eval(hc, h, st)),
+        explore(cfg, hc.id, n, move || history(hcfg), |h: &History, st| eval(hc, h, st, excuse)),
     );
+    // known findings of this property: replay each listed witness; report those that still reproduce
+    for f in known.for_property(hc.id) {
+        let hits_in_witness = crate::known::read_witness(&cfg.root, f)
+            .and_then(|v| load_case::<History>(&v).ok())
+            .map(|h| {
+                let (it, _) = run_history_with(&h, false, false, excuse);
+                match f.id.as_str() {
+                    "KF-C04-1" => it.facts.kf_c04_1,
+                    "KF-C04-2" => it.facts.kf_c04_2,
+                    _ => 0,
+                }
+            })
+            .unwrap_or(0);
+        if hits_in_witness > 0 {
+            let total = rep.stats.known.get(&f.id).copied().unwrap_or(0);
+            rep.known_lines.push((
+                f.id.clone(),
+                format!("{} [witness {} reproduces; {} matching pairs skipped in this run]", f.what, f.witness, total),
+            ));
+        }
+    }
     rep
 }
 
-pub fn replay(hc: &HistCheck, v: &serde_json::Value) -> Result<(), String> {
+pub fn replay(cfg: &RunCfg, hc: &HistCheck, v: &serde_json::Value) -> Result<(), String> {
     let h: History = load_case(v)?;
     let mut st = Stats::default();
-    let r = eval(hc, &h, &mut st);
+    let (_, excuse) = excuses(cfg);
+    let r = eval(hc, &h, &mut st, excuse);
     println!("{}", serde_json::to_string_pretty(&describe(&h)).unwrap());
     if !st.known.is_empty() {
         println!("known-finding signatures hit: {}", json!(st.known));
     }
     r
+}
+
+fn std_order(q: u64, ts: u64) -> crate::spec::OrderSpec {
+    crate::spec::OrderSpec {
+        kind: crate::spec::Kind::Standard,
+        display: q,
+        hidden: 0,
+        buy: false,
+        tif: crate::spec::Tif::Gtc,
+        ts,
+        threshold: 0,
+        amount: None,
+        auto: false,
+        trail: 0,
+        lastref: 0,
+        offset: 0,
+        peg: 0,
+    }
+}
+
+/// Hand-written witness histories of the known findings (written to /verif/known/ by `plv witnesses`).
+pub fn witnesses() -> Vec<(&'static str, &'static str, History)> {
+    use crate::gen::Profile;
+    use crate::spec::IdSpec;
+    let pool = vec![IdSpec::FromU64(1), IdSpec::FromU64(2), IdSpec::FromU64(3)];
+    let base = |ops: Vec<Op>| History {
+        zeros: false,
+        price: 100,
+        profile: Profile::Small,
+        ts_mode: TsMode::Increasing,
+        pool: pool.clone(),
+        ops,
+    };
+    vec![
+        (
+            "KF-C04-1",
+            "C04",
+            base(vec![
+                Op::Add { slot: 0, spec: std_order(10, 1) },
+                Op::Add { slot: 30000, spec: std_order(10, 2) },
+                Op::Match { size: MatchSize::Exact(4) },
+                Op::Match { size: MatchSize::Exact(4) },
+            ]),
+        ),
+        (
+            "KF-C04-2",
+            "C04",
+            base(vec![
+                Op::Add { slot: 0, spec: std_order(10, 1) },
+                Op::Add { slot: 30000, spec: std_order(10, 2) },
+                Op::Cancel { target: Target::Pool(0) },
+                Op::Add { slot: 0, spec: std_order(10, 3) },
+                Op::Match { size: MatchSize::Exact(5) },
+            ]),
+        ),
+    ]
 }
